@@ -74,7 +74,7 @@ theorem tabOf_own {h : Heap} {u tb : Addr} {s : Nat} (hi : Inv h) (hs : s ≠ 0)
       cases sc with
       | none => simp at e
       | some p => obtain ⟨t1, p1⟩ := p; simp at e; subst e; exact struct_tag hi hs hc ha (by simp [structRefs])
-    | unit _ _ _ t1 _ _ => simp at e; subst e; exact struct_tag hi hs hc ha (by simp [structRefs])
+    | unit _ _ _ _ t1 _ _ => simp at e; subst e; exact struct_tag hi hs hc ha (by simp [structRefs])
 
 theorem navigate_tag {h : Heap} {s : Nat} (hi : Inv h) (hs : s ≠ 0) : ∀ (path : List Nat) (root u : Addr),
     h.tagOf root = some s → navigate h path root = some u → h.tagOf u = some s := by
@@ -181,15 +181,16 @@ theorem scopedBelow_tag {h : Heap} {s : Nat} (hi : Inv h) (hs : s ≠ 0) : ∀ (
 theorem applyOp_step {s : Nat} (hs : s ≠ 0) (f : Nat) (h : Heap) (root : Addr) (hi : Inv h) (hr : h.tagOf root = some s) (op : Op) :
     Step s h (applyOp f s h root op) := by
   cases op with
+  | touch path => simp only [applyOp]; exact Step.refl hi
   | rename path name =>
     simp only [applyOp]
     split
     · rename_i u hn
       have hu := navigate_tag hi hs path root u hr hn
       split
-      · rename_i isMod nm p t secs mems hc
+      · rename_i isMod nm attrs p t secs mems hc
         refine step_set hi hs hu ?_
-        have g := ((hi u s _ (own_cell hc hu)).1 hs).mono (le_set h u (.unit isMod name p t secs mems))
+        have g := ((hi u s _ (own_cell hc hu)).1 hs).mono (le_set h u (.unit isMod name attrs p t secs mems))
         exact ⟨by simpa [structRefs] using g.1, by simpa [parRefs] using g.2.1, by simp [symRefs]⟩
       · exact Step.refl hi
     · exact Step.refl hi
@@ -218,9 +219,9 @@ theorem applyOp_step {s : Nat} (hs : s ≠ 0) (f : Nat) (h : Heap) (root : Addr)
         generalize r1.1.alloc s (.node "Section" none [] r1.2) = r2 at s2 n2 la
         have hu2 := s2.le.1 _ _ (s1.le.1 _ _ hu)
         split
-        · rename_i isMod nm p t secs mems hc
+        · rename_i isMod nm attrs p t secs mems hc
           refine (s1.trans s2).trans (step_set s2.inv hs hu2 ?_)
-          have ls := le_set r2.1 u (.unit isMod nm p t (secs.set k r2.2) mems)
+          have ls := le_set r2.1 u (.unit isMod nm attrs p t (secs.set k r2.2) mems)
           have g := ((s2.inv u s _ (own_cell hc hu2)).1 hs).mono ls
           refine ⟨fun x hx => ?_, by simpa [parRefs] using g.2.1, by simp [symRefs]⟩
           simp only [structRefs, List.mem_cons, List.mem_append] at hx
@@ -239,7 +240,7 @@ theorem applyOp_step {s : Nat} (hs : s ≠ 0) (f : Nat) (h : Heap) (root : Addr)
     · rename_i u hn
       have hu := navigate_tag hi hs path root u hr hn
       split
-      · rename_i isMod nm p t secs mems hc
+      · rename_i isMod nm attrs p t secs mems hc
         have htt : h.tagOf t = some s := struct_tag hi hs hc hu (by simp [structRefs])
         split
         · rename_i spec hsp
@@ -279,7 +280,7 @@ theorem applyOp_step {s : Nat} (hs : s ≠ 0) (f : Nat) (h : Heap) (root : Addr)
     · rename_i u hn
       have hu := navigate_tag hi hs path root u hr hn
       split
-      · rename_i isMod nm p t secs mems hc
+      · rename_i isMod nm attrs p t secs mems hc
         split
         · rename_i n hk
           have hn : h.tagOf n = some s := by
@@ -328,6 +329,7 @@ theorem unres_mkStmts (f s d : Nat) (u : Addr) : ∀ (st : List (List String)) (
 
 theorem applyOp_unres (f s : Nat) (h : Heap) (root : Addr) (op : Op) : (applyOp f s h root op).unres = h.unres := by
   cases op with
+  | touch path => rfl
   | rename path name =>
     simp only [applyOp]; split
     · split
